@@ -198,5 +198,5 @@ HARNESSES = {
     'fft_vs_dft': {'configs': cfg_fft, 'run': run_fft, 'small': 4},
     'scratch': {'configs': cfg_scratch, 'run': run_scratch, 'small': 4},
     'tilt_refused': {'configs': cfg_tilt, 'run': run_tilt, 'small': 4},
-    'band': {'configs': cfg_band, 'run': run_band, 'small': 4, 'config_timeout_s': 200},
+    'band': {'configs': cfg_band, 'run': run_band, 'small': 4, 'config_timeout_s': 600},
 }
